@@ -81,6 +81,13 @@ def hmc_cases(rnd, n=40):
                       "positions": [[round(rnd.uniform(-1, 1), 3), round(rnd.uniform(-1, 1), 3)] for _ in range(nch)],
                       "eps": rnd.choice([0.02, 0.1, 0.3, 0.45, 0.9]), "L": rnd.choice([0, 1, 2, 3, 5]),
                       "seed": rnd.randrange(1, 10 ** 6), "steps": 3})
+    # step sizes so unstable that the leapfrog orbit leaves the float range: the proposal has non-finite coordinates and
+    # must be rejected with the chain left exactly where it was
+    for k in range(6):
+        nch = [1, 2, 3][k % 3]
+        cases.append({"case": "hmc_step", "target": [t for t in TARGETS if t["kind"] == "gauss"][0],
+                      "positions": [[round(rnd.uniform(-1, 1), 3), round(rnd.uniform(-1, 1), 3)] for _ in range(nch)],
+                      "eps": [1e160, 1e200, 1e120][k % 3], "L": [2, 3][k % 2], "seed": rnd.randrange(1, 10 ** 6), "steps": 2})
     return cases
 
 
@@ -190,6 +197,12 @@ def replay_nan(kind, seed=1):
             e = rnd.choice([0.4, 0.8, 1.3, 2.0])
             cases.append({"case": "nuts_step", "target": HALF, "position": start[0], "seed": rnd.randrange(1, 10 ** 6),
                           "delta": 0.8, "adapt": [e, e, 0.0, math.log(10 * e)], "m": 5, "n_discard": 2, "steps": 6})
+    if kind == "hmc":
+        for k in range(6):
+            nch = [1, 2, 3][k % 3]
+            cases.append({"case": "hmc_step", "target": [t for t in TARGETS if t["kind"] == "gauss"][0],
+                          "positions": [[round(rnd.uniform(-1, 1), 3), round(rnd.uniform(-1, 1), 3)] for _ in range(nch)],
+                          "eps": [1e160, 1e200, 1e120][k % 3], "L": [2, 3][k % 2], "seed": rnd.randrange(1, 10 ** 6), "steps": 2})
     nat = run_batch(cases)
     hits = []
     for prof, outs in nat.items():
@@ -208,7 +221,7 @@ def replay_nan(kind, seed=1):
             elif kind != "hmc":
                 pts = [[fl(x) for x in st["real_position"]] for st in o.get("steps", [])]
             for pnt in pts:
-                v = lp_half(pnt)
+                v = lp_half(pnt) if case["target"].get("kind") == "half" else 0.0
                 if v != v or v == float("-inf") or any(c != c or abs(c) == float("inf") for c in pnt):
                     hits.append((prof, case, o, "chain sits at %s whose log-density is %s" % (pnt, v)))
                     break
